@@ -34,6 +34,7 @@ fn parse_mode(s: &str) -> Mode {
         "Lazy" => Mode::Read(Api::Lazy),
         "Alt" => Mode::Read(Api::Alt),
         "QueryData" => Mode::QueryData,
+        "Async" => Mode::Async,
         _ => Mode::Query,
     }
 }
